@@ -35,6 +35,21 @@ CHECKS = {
          "Part A drives AdvancedAgenda with every sequence of a 21-operation alphabet to the stated length plus random sequences and checks each pop against a shadow multiset (no eligible pending activation of the focused group with a larger (salience, earlier-created) key; no-loop and activation-group exclusivity between resets). Part B runs rule programs incl. always-true rules without no-loop on IncrementalEngine, TypedReteUlEngine, ReteUlEngine and the free fire_rete_ul_rules* functions in child processes; action closures count executions and unwind beyond 100 x 1000 x #rules (logical 'does not return'); documented iteration bounds are checked. Part C checks no-loop, salience order and the bound on IncrementalEngine histories. Held = no explored sequence or program broke a clause apart from the pinned findings.",
          "'Earlier-created' is the order of Activation::new calls with forced distinct instants (equal-instant ties are not exercised). Lock-on-active, auto-focus, ruleflow groups and non-Salience strategies are outside the statement. Action-free spinning can only be inconclusive under the CPU back-stop (none occurred).",
          "DESIGN.md §5 C07"),
+ "C09": ("exploration",
+         "differential monitor: real GRL parser + BackwardEngine vs independent references (three-valued goal evaluator on returned facts; multi-valued Horn closure and definite derivation heights on initial facts); exhaustive small family + seeded random KBs; Miri on the BFS raw-pointer queue (thorough)",
+         "Horn KBs generated as GRL text (parsed rules must equal the generator's AST), one query per fresh engine, memoisation off; provable => goal true on the facts handed back (S1) and satisfiable in an over-approximating forward closure (S2); a DFS 'not provable' is a violation when a derivation of height <= max_depth through conjunctive rules over single-valued fields exists (K); cases with several top-level candidates are repeated (HashSet candidate order). Held = no judged answer disagreed apart from the open findings; thorough also needs a clean Miri run (Stacked+Tree Borrows) of BFS over goal trees.",
+         "Trusts DESIGN §4.2 semantics (cross-type / ambiguous nested-vs-flat = Undefined, skipped+counted) and the height convention initial=0, rule=+1; K silent on multi-valued fields; completeness only DFS/max_solutions 1; Miri covers the hand-built tree workloads only (a Miri build/run failure is inconclusive).",
+         "DESIGN.md §5 C09"),
+ "C10": ("exploration",
+         "model-based step monitor (stack of snapshots) over exhaustive and random op sequences of the Facts undo API + before/after fact comparison of every failed backward query",
+         "All sequences of length 5/6 over an 18-op alphabet (begin/commit/rollback/set/set_nested/remove x 3 keys x 2 values) from 2 initial stores, random to length 10, whole store compared with the model after every op; every C09-style query answered 'not provable' must leave get_all_facts() unchanged. Held = no step or failed query broke a clause apart from the open findings.",
+         "Only values/absence are compared (not Facts' type tags); set_nested on an absent or non-object root is Err with no change; open undo frames after a query (hook H4) are reported, not judged.",
+         "DESIGN.md §5 C10"),
+ "C11": ("exploration",
+         "differential history monitor: reused engine vs freshly built engine on a deep copy of the facts at every query step",
+         "Histories of <= 6 steps (queries from a small pool, caller-side set/remove, RETE retractions when attached) on one engine; every query step compared with a fresh engine; exhaustive 5^4 histories over 2 queries x 3 edits for 10/50 KBs, random beyond. Held = every judged answer equalled the fresh engine's apart from the text-keyed memo finding.",
+         "answer = QueryResult.provable; a mismatch that does not reproduce in every confirmation run (candidate order is HashSet-dependent) is counted, not judged.",
+         "DESIGN.md §5 C11"),
  "C12": ("exploration",
          "online step monitors (before/after contents, no carried model) + reference folds over exhaustive short and seeded random event sequences; wall clock injected through an LD_PRELOAD shim for the clock-driven node",
          "Drives TimeWindow (add_event, record), WindowManager and WindowedStream in tumbling mode, and StreamAlphaNode under a virtual clock with every event sequence up to a stated length over a small timestamp alphabet around the window boundaries (x durations 1-10 ms x caps 1, 2, 100) and seeded random sequences up to length 12 (in order, reversed, shuffled, late, duplicate, boundary instants; numeric, string, bool, missing payloads). After every call it checks acceptance / aligned placement / no stale retained event / no in-span event lost except oldest-first cap drops on the contents observed before and after, and count, sum, average, min, max through every aggregation API against a fold over exactly the window's events(). Held = no step of any explored sequence broke a clause, apart from the listed known findings.",
